@@ -341,6 +341,7 @@ struct Ser {
             o["arrow"] = x->isArrow();
             o["dk"]    = isa<FieldDecl>(x->getMemberDecl()) ? "field" : (isa<CXXMethodDecl>(x->getMemberDecl()) ? "method" : "other");
             o["q"]     = qname(x->getMemberDecl());
+            if (x->hasQualifier()) { o["qual"] = nnsText(x->getQualifier()); }
             if (x->hasExplicitTemplateArgs()) { o["targs"] = targs(x->template_arguments()); }
             return json::Value(std::move(o));
         }
@@ -350,6 +351,7 @@ struct Ser {
             o["b"]     = x->isImplicitAccess() ? implicitThis() : expr(x->getBase());
             o["arrow"] = x->isArrow();
             o["dep"]   = true;
+            if (x->getQualifier() != nullptr) { o["qual"] = nnsText(x->getQualifier()); }
             if (x->hasExplicitTemplateArgs()) { o["targs"] = targs(x->template_arguments()); }
             return json::Value(std::move(o));
         }
@@ -359,6 +361,7 @@ struct Ser {
             o["b"]     = x->isImplicitAccess() ? implicitThis() : expr(x->getBase());
             o["arrow"] = x->isArrow();
             o["unres"] = true;
+            if (x->getQualifier() != nullptr) { o["qual"] = nnsText(x->getQualifier()); }
             json::Array c;
             for (auto const* d : x->decls()) { c.push_back(qname(d)); }
             o["cands"] = std::move(c);
